@@ -35,6 +35,14 @@ pub fn v1_addr_fields(a: &v1::Addresses, m: &mut Map<String, Value>) {
             m.insert("sp".into(), json!(a.source_port));
             m.insert("dp".into(), json!(a.destination_port));
         }
+        // a variant this harness does not know (the enum grew): reported as such, not a build error
+        _ => {
+            m.insert("proto".into(), json!("OTHER"));
+            m.insert("sa".into(), json!([]));
+            m.insert("da".into(), json!([]));
+            m.insert("sp".into(), json!(0));
+            m.insert("dp".into(), json!(0));
+        }
     }
 }
 
@@ -63,6 +71,7 @@ fn v1_error_name(e: &v1::ParseError) -> &'static str {
         InvalidDestinationAddress(_) => "InvalidDestinationAddress",
         InvalidSourcePort(_) => "InvalidSourcePort",
         InvalidDestinationPort(_) => "InvalidDestinationPort",
+        _ => "OtherError",
     }
 }
 
@@ -102,6 +111,7 @@ fn v1_bin_err(e: &v1::BinaryParseError, inc: bool, cmp: bool) -> Value {
             "dbg": format!("{:?}", u),
             "msg": e.to_string(),
         }),
+        _ => json!({"k": "err", "e": "OtherError", "w": "Other", "inc": inc, "cmp": cmp, "einc": e.is_incomplete(), "ecmp": e.is_complete(), "dbg": format!("{:?}", e), "msg": e.to_string()}),
     }
 }
 
@@ -329,6 +339,7 @@ pub fn v2_addr(a: &v2::Addresses) -> Value {
             "src": rl(&a.source),
             "dst": rl(&a.destination),
         }),
+        _ => json!({"k": "Other"}),
     }
 }
 
@@ -338,6 +349,7 @@ pub fn family_name(f: v2::AddressFamily) -> &'static str {
         v2::AddressFamily::IPv4 => "IPv4",
         v2::AddressFamily::IPv6 => "IPv6",
         v2::AddressFamily::Unix => "Unix",
+        _ => "Other",
     }
 }
 
@@ -354,6 +366,7 @@ pub fn v2_err(e: &v2::ParseError) -> Value {
         InvalidAddresses(l, n) => ("InvalidAddresses", *l as u64, *n as u64),
         InvalidTLV(t, l) => ("InvalidTLV", *t as u64, *l as u64),
         Leftovers(n) => ("Leftovers", *n as u64, 0),
+        _ => ("OtherError", 0, 0),
     };
     json!({"k": "err", "e": name, "a": a, "b": b, "einc": e.is_incomplete(), "ecmp": e.is_complete(),
            "msg": guard(|| e.to_string()).unwrap_or_else(|p| format!("PANIC {}", p))})
@@ -466,12 +479,13 @@ fn v2_views(h: &v2::Header) -> Value {
 fn v2_ok(h: &v2::Header, full: bool) -> Value {
     let mut m = Map::new();
     m.insert("k".into(), json!("ok"));
-    m.insert("ver".into(), json!(match h.version { v2::Version::Two => "Two" }));
+    m.insert("ver".into(), json!(match h.version { v2::Version::Two => "Two", _ => "Other" }));
     m.insert(
         "cmd".into(),
         json!(match h.command {
             v2::Command::Local => "Local",
             v2::Command::Proxy => "Proxy",
+            _ => "Other",
         }),
     );
     m.insert(
@@ -480,6 +494,7 @@ fn v2_ok(h: &v2::Header, full: bool) -> Value {
             v2::Protocol::Unspecified => "Unspecified",
             v2::Protocol::Stream => "Stream",
             v2::Protocol::Datagram => "Datagram",
+            _ => "Other",
         }),
     );
     m.insert("addr".into(), v2_addr(&h.addresses));
